@@ -148,7 +148,7 @@ example : RingInv (Rtsp.Ring.run (Rtsp.Ring.new (α := Nat) 4) [.push 1, .push 2
 example : (Rtsp.Ring.run (Rtsp.Ring.new (α := Nat) 2) [.push 1, .push 2, .push 3, .pull, .push 4, .pull, .pull, .pull]).2 =
     [.pushed true, .pushed true, .pushed false, .pulled (.item 1), .pushed true, .pulled (.item 2),
      .pulled (.item 4), .pulled .wait] := by decide
--- test: the input that failed before /repo commit cd9034b (pushes after Close were pulled, newest first)
+-- test: the input that failed before /repo commit b595ca0 (pushes after Close were pulled, newest first)
 example : (Rtsp.Ring.run (Rtsp.Ring.new (α := Nat) 2) [.push 1, .close, .push 2, .push 3, .push 4, .pull, .reset, .push 5, .pull]).2 =
     [.pushed true, .done, .pushed true, .pushed true, .pushed false, .pulled .closed, .done, .pushed true,
      .pulled (.item 5)] := by decide
@@ -335,7 +335,7 @@ example : ((Rtsp.Async.run (Rtsp.Async.init 4 false) exErr).executed.map (·.id)
            (Rtsp.Async.run (Rtsp.Async.init 4 false) exErr).accepted.map (·.id),
            (Rtsp.Async.run (Rtsp.Async.init 4 false) exErr).closer) = ([1, 2], [2], [1, 2, 3, 4], .returned) := by decide
 /-- Close in progress while a callback is held, pushes racing with it (the schedule that ran
-callbacks out of order before /repo commit cd9034b) -/
+callbacks out of order before /repo commit b595ca0) -/
 def exWindow : List AOp :=
   [.start, .push ⟨1, false⟩, .cpull, .push ⟨2, false⟩, .closeStep, .closeStep, .push ⟨3, false⟩, .push ⟨4, false⟩,
    .cexec, .cpull, .closeStep]
